@@ -448,20 +448,39 @@ def set_media_type(v):
     v.check('default-content-type-only-when-absent-never-overrides', H1.eq(E))
 
 
-@harness(PROP, RESP + '.__init__', setup=_setup, inline=['falcon.util.structures:*'])
+def _init_setup(reg, ex):
+    import importlib
+
+    _setup(reg, ex)
+    # ResponseOptions.__init__ runs from its source; the media handler table it creates is opaque here (C11 / C12)
+    reg.add_model(importlib.import_module('falcon.media.handlers').Handlers, lambda I, *a, **k: object())
+
+
+@harness(PROP, RESP + '.__init__', setup=_init_setup, inline=['falcon.util.structures:*', 'falcon.response:ResponseOptions.__init__'])
 def response_starts_empty(v):
     """Base case of the induction over histories: a new response has no plain header, no raw line, no cookie jar."""
-    opts = Options(True)
+    v.expect_covers('constructed', 'constructed-without-options')
+    # the options argument is optional: given (either value of the Secure default), None, or omitted
+    ok = v.choose(4, 'options')
+    opts = Options(ok == 0) if ok < 2 else None
     resp = v.obj(RESP)
-    out = v.call(resp, opts)
+    out = v.call(resp) if ok == 3 else v.call(resp, opts)
     v.check('no-exception', out.exc is None)
     if out.exc is not None:
         return
     h = v.get(resp, '_headers')
     v.check('no-plain-headers', isinstance(h, dict) and len(h) == 0)
     v.check('no-raw-lines-and-no-cookie-jar', v.get(resp, '_extra_headers') is None and v.get(resp, '_cookies') is None)
-    v.check('options-kept', v.get(resp, 'options') is opts)
-    v.cover('constructed')
+    o1 = v.get(resp, 'options')
+    if opts is not None:
+        v.check('options-kept', o1 is opts)
+        v.cover('constructed')
+    else:
+        # "Secure defaulting from the app option": a response built without options gets a fresh ResponseOptions (documented default: Secure on)
+        RO = v.real('falcon.response:ResponseOptions')
+        v.check('without-options-a-fresh-default-responseoptions-is-used',
+                (isinstance(o1, RO) if v.concrete else getattr(o1, '_cls', None) is RO) and v.get(o1, 'secure_cookies_by_default') is True)
+        v.cover('constructed-without-options')
 
 
 @harness(PROP, RESP + '.get_header', name='read_back_in_any_case', setup=_setup,
@@ -1662,6 +1681,9 @@ KILLS = [
     # 20 non-ASCII download filenames are emitted raw
     ('falcon/response_helpers.py', "    if value.isascii():\n        return '%s; filename=\"%s\"' % (disposition_type, value)\n", "    if True:\n        return '%s; filename=\"%s\"' % (disposition_type, value)\n",
      'Response.downloadable_as#stores-the-transformed-value-under-its-fixed-lower-case-name-and-nothing-else'),
+    # 21 a response constructed without options (Response() / options=None) no longer gets the default options (set_cookie would fail on resp.options)
+    ('falcon/response.py', '        self.options = options if options is not None else ResponseOptions()\n', '        self.options = options  # type: ignore[assignment]\n',
+     'Response.__init__#without-options-a-fresh-default-responseoptions-is-used'),
 ]
 HARMLESS = [
     # locals renamed in set_header
@@ -1699,6 +1721,10 @@ ASSUMPTIONS = [
     'etag setter: the value is a non-empty str (resp.etag = "" raises IndexError in _format_etag_header)',
     'unset_cookie: the name is one the jar accepts (a CookieError for an illegal name is not translated by unset_cookie) and samesite, when given, is non-empty',
     'set_headers: the iterable has 0..3 pairs (CONCRETE lengths, symbolic names and values; mapping keys pairwise distinct); no loop invariant for arbitrary length',
+    'Response.__init__ without options: ResponseOptions.__init__ runs from its source, the Handlers() table it creates is an opaque object (C11 / C12)',
+    'inputs deliberately left at one value because the method under contract does not read them (they only appear in frame clauses): the cookie jar is None for '
+    'the plain-header / typed-property / append_link / set_stream harnesses, the raw-line list is None for append_link / set_stream / headers, '
+    'resp.options is absent for every method except set_cookie and __init__ (no other method of this chain reads it), resp.stream is None before set_stream',
 ]
 NOT_DECIDED = [
     'set_headers for iterables longer than 3 pairs (the loop is unrolled for lengths 0..3; the body is the same three statements per pair)',
